@@ -120,6 +120,52 @@ def mapIntoMap (rec : Rec) (v : Value) (T : GoTy) : Res GoVal :=
     | .map E, .map ety, .smap ks cs => mapRes (GoVal.map ks) (decodeAll rec ety cs E)
     | _, _, _ => .unmodelled
 
+/-! ### fromCtyObject: two loops over Go maps, pinned regions
+
+`for k, i := range targetFields` (the missing-attribute check) and `for k := range attrTypes` (decode every attribute into
+the field that carries its name) range over Go maps and use comma-ok lookups: outside the translator's fragment.  Their
+meaning is written here in the vocabulary of the hand-written model (`missingRequired`, `lookupTag`, `combSched`,
+`assemble`); `ord names` is the order in which Go visits the attribute names. -/
+
+/-- the tags and field types `structTagIndices(target.Type())` / `target.Field(i)` see: a `GoTy.struct`'s effective tags;
+big.Int, big.Float and cty.Value are structs without tagged fields -/
+def tagView : GoTy → Option (List String × List GoTy)
+  | .struct tags tys => some (effTags tags, tys)
+  | .bigInt => some ([], [])
+  | .bigFloat => some ([], [])
+  | .cval => some ([], [])
+  | _ => none
+
+/-- `attrTypes := …; targetFields := …; path = append(path, nil); for k, i := range targetFields { … }` -/
+def objectMissingCheck (v : Value) (T : GoTy) (tv : GoVal) : Res GoVal :=
+  match tagView T, v.ty with
+  | some (etags, tys), .object names _ _ =>
+    if missingRequired names etags tys then .err "missing required attribute %q" else .ok tv
+  | _, _ => .unmodelled
+
+/-- one result per attribute, in name order: refused if no field carries the name, else decoded into that field's type -/
+def attrDecodes (rec : Rec) (ms : List String) : List String → List Ty → List Payload → List String → List GoTy → List (Res GoVal)
+  | k :: names, aty :: atys, c :: cs, tags, tys =>
+    (match lookupTag k tags tys with
+     | none => .err "unsupported attribute"
+     | some T => rec ⟨aty, pushMarks ms c⟩ T) :: attrDecodes rec ms names atys cs tags tys
+  | _, _, _, _, _ => []
+
+/-- `for k := range attrTypes { … }`: the attributes are visited in the order `ord names`; the first failure ends the loop;
+the struct the target holds afterwards has, per tagged field, the decoded attribute of its name -/
+def objectIntoFields (rec : Rec) (ord : List String → List String) (v : Value) (T : GoTy) (tv : GoVal) : Res GoVal :=
+  match v.ty, v.v.unmark1 with
+  | .object names atys _, .smap ks cs =>
+    if ks != names then .unmodelled
+    else
+      (match T with
+       | .struct tags tys =>
+         mapRes (fun gs => GoVal.struct tags (assemble names gs (effTags tags) tys))
+           (combSched (ord names) names (attrDecodes rec v.v.marks1 names atys cs (effTags tags) tys))
+       | .bigInt | .bigFloat | .cval => if names.isEmpty then .ok tv else .err "unsupported attribute %q"
+       | _ => .unmodelled)
+  | _, _ => .unmodelled
+
 /-! ### fromCtyTuple: the positional loop (translated; these are the `reflect`/`cty` calls in its body) -/
 
 /-- `ty.TupleElementTypes()` -/
